@@ -669,8 +669,24 @@ impl<Config: endpoint::Config> ApplicationSpace<Config> {
         decrypted.map(|x| x.0)
     }
 
+    #[cfg(not(aws_s2n_quic_verif))]
     fn key_limits() -> limited::Limits {
         limited::Limits::default()
+    }
+
+    // verif hook H5: lets the model-checking harness make real connections update their 1-RTT keys
+    // every few dozen packets (S2N_QUIC_VERIF_KEY_UPDATE_WINDOW = confidentiality limit - N);
+    // without the variable the default limits apply
+    #[cfg(aws_s2n_quic_verif)]
+    fn key_limits() -> limited::Limits {
+        let mut limits = limited::Limits::default();
+        if let Some(window) = std::env::var("S2N_QUIC_VERIF_KEY_UPDATE_WINDOW")
+            .ok()
+            .and_then(|v| v.parse().ok())
+        {
+            limits.key_update_window = window;
+        }
+        limits
     }
 }
 
